@@ -240,7 +240,7 @@ theorem simple_iff_text_has_no_separator (nm ln : Nat → String) (t : Ty) :
     t.simple = true ↔ noSep (t.render nm ln) = true := simple_iff_noSep nm ln t
 
 /-- **`helpers.split_function_test` agrees with the grammar for every typed function test.**  The scan by nesting
-depth (fix-c18-6; `sequence_types.py` l.113-126 and `match_function_test` cut the normalised text with it) applied
+depth (`sequence_types.py` l.113-126 and `match_function_test` cut the normalised text with it) applied
 to the text of `function(a) as r` returns the texts of the parameters — none for `function() as r` — and the text
 of the return type, for all parameter lists `a` (typed function tests, map tests, array tests and kind tests with
 type arguments nested to any depth) and all `r`.  So the AST model of `is_sequence_type_restriction` /
@@ -260,7 +260,7 @@ theorem text_is_balanced (nm ln : Nat → String) (t : Ty) (d : Nat) (rest cur :
     splitScan d (t.render nm ln ++ rest) cur = splitScan d rest (cur ++ t.render nm ln) :=
   scan_render nm ln t d rest cur
 
-/-- the types of `string_split_old_witnesses`, now split as the grammar says: `function(map(K, V)) as R` has one
+/-- three types that the splitting at every `', '` / first `') as '` (before the `fix:` 1a95d7d) cut wrongly, split as the grammar says: `function(map(K, V)) as R` has one
 parameter, `function(function(A) as B, C) as R` two, `function() as R` none, and the return type is `R` (one token) -/
 example :
     let nm : Nat → String := fun _ => "xs:x"
@@ -271,26 +271,6 @@ example :
     (pySplit ((Ty.func (.cons f (.cons r .nil)) r).render nm nm)).1.length = 2 ∧
     (pySplit ((Ty.func (.cons f (.cons r .nil)) r).render nm nm)).2.length = 1 ∧
     (pySplit ((Ty.func .nil r).render nm nm)) = ([], [.atom "xs:x"]) := by decide
-
-/-- the splitting before fix-c18-6 (`st[9:].partition(') as ')`, `.split(', ')`) returned the texts of the
-parameters **iff** every parameter is `simple`: this is the exact region where the pinned tree without the
-`fix:` differs from the grammar (trigger of F18p: `¬ a.allSimple`, or no parameter at all). -/
-theorem string_split_old_agrees_iff_simple (nm ln : Nat → String) (a : Tys) (r : Ty) (ha : a ≠ .nil) :
-    (pySplitOld ((Ty.func a r).render nm ln)).1 = a.argTexts nm ln ↔ a.allSimple = true :=
-  pySplitOld_agrees_iff nm ln a r ha
-
-/-- kernel-checked witnesses of the old splitting outside that region: `function(map(K, V)) as R` (one parameter)
-was cut into two pieces; `function(function(A) as B, C) as R` (two parameters) was cut at the inner `') as '` into
-one piece and the "return type" started inside the first parameter; `function() as R` had one (empty) piece -/
-theorem string_split_old_witnesses :
-    let nm : Nat → String := fun _ => "xs:x"
-    let m : Ty := .map 0 (.leaf (.atomic 1) .one) .one
-    let f : Ty := .func (.cons (.leaf (.atomic 0) .one) .nil) (.leaf (.atomic 1) .one)
-    let r : Ty := .leaf (.atomic 2) .one
-    (pySplitOld ((Ty.func (.cons m .nil) r).render nm nm)).1.length = 2 ∧
-    (pySplitOld ((Ty.func (.cons f (.cons r .nil)) r).render nm nm)).1.length = 1 ∧
-    (pySplitOld ((Ty.func (.cons f (.cons r .nil)) r).render nm nm)).2.length = 5 ∧
-    (pySplitOld ((Ty.func .nil r).render nm nm)).1 = [[]] := by decide
 
 /-! ## a typed function test with an occurrence indicator of its own -/
 
